@@ -350,6 +350,11 @@ func checkAttributes(m *Model, log *Log, in, out string, inToks, outToks []tok, 
 				continue
 			}
 			if k == "sandbox" && el == "iframe" && m.sandbox != nil {
+				for _, f := range htmlFields(v) {
+					if !m.sandbox[f] {
+						return false, violation(out, "C02: forced sandbox attribute carries the token %q, which the policy's (most recent) RequireSandboxOnIFrame call did not list", f)
+					}
+				}
 				r.Class("attr:sandbox_forced")
 				continue
 			}
@@ -425,6 +430,12 @@ func checkC02(c *Case, r *Rec) error {
 	inToks, outToks := tokenize(in), tokenize(out)
 	regexAccepted, err := checkAttributes(m, log, in, out, inToks, outToks, r)
 	if err != nil {
+		return err
+	}
+	// a style attribute on an element with style rules is admitted by those rules only: every
+	// declaration in it must be one they accept (the C10 reading, applied here as well because
+	// the decision WHETHER style rules govern an element is part of the attribute stage)
+	if _, err := checkStyleSafety(m, out, outToks, nil); err != nil {
 		return err
 	}
 	// attributes never appear from nowhere: every output attribute key occurs as an attribute key
